@@ -27,13 +27,42 @@ class _Cmds:
     def t_v(self, *args: mitmproxy.types.CmdArgs) -> None:
         self.got = ("t.v", list(args))
 
+    # the other signature shapes: fixed arity, mixed parameter types, fixed parameters followed by *rest, no parameters
+    @command.command("t.one")
+    def t_one(self, a: str) -> None:
+        self.got = ("t.one", [a])
+
+    @command.command("t.two")
+    def t_two(self, a: str, b: mitmproxy.types.CmdArgs) -> None:
+        self.got = ("t.two", [a, b])
+
+    @command.command("t.mix")
+    def t_mix(self, a: mitmproxy.types.CmdArgs, *rest: str) -> None:
+        self.got = ("t.mix", [a] + list(rest))
+
+    @command.command("t.none")
+    def t_none(self) -> None:
+        self.got = ("t.none", [])
+
+
+# command key -> (types of the positional parameters, type of *rest or None); 's' = str, 'v' = verbatim (CmdArgs)   (= C45Driver.cmds)
+SIGS = {"s": ([], "s"), "v": ([], "v"), "one": (["s"], None), "two": (["s", "v"], None), "mix": (["v"], "s"), "none": ([], None)}
+NAMES = {"t." + k: k for k in SIGS}
+
+
+def tys_for(key, n):
+    """the parameter type each of n arguments meets, None when the call does not bind"""
+    pos, rest = SIGS[key]
+    if n < len(pos) or (rest is None and n != len(pos)): return None
+    return pos + [rest] * (n - len(pos))
+
 
 def manager():
     """a fresh CommandManager per case: what one case does to it (parse cache, …) cannot leak into another"""
     cm = command.CommandManager(None)
     a = _Cmds()
     cm.collect_commands(a)
-    assert set(cm.commands) == {"t.s", "t.v"}
+    assert set(cm.commands) == set(NAMES)
     return cm, a
 
 
@@ -146,20 +175,27 @@ def ref_unquote(seg):
 class Check(PropertyCheck):
     prop = "C45"
     design_ref = "§5 C45"
-    level_text = ("Lean theorems about the model of quote / unquote / the pyparsing lexer / execute / _StrType.parse, for ALL strings: "
-                  "lexer_loses_nothing (tokens concatenate to the line), lexer_merge_splits_at_unquoted_ws (gluing touching tokens "
-                  "gives exactly the split at unquoted whitespace), lexer_splits_at_unquoted_ws_partial (+counterexample "
-                  "`x foo\"bar baz\"`, F-C45c), arg_unchanged_partial for any number of arguments (verbatim types: not both quote "
-                  "characters; str: no backslash) with counterexamples `C:\\new` (F-C45b) and both quotes (F-C45a). "
-                  "Model tied to the code through CommandManager.execute on registered test commands (exhaustive small strings + random).")
-    level_note = ("PARTIAL: the full statement is false for the code (three recorded findings); proved under the guards named above. "
-                  "trusted: Lean kernel; differential tie (execute outcome, quote(), token list); pyparsing/re/codecs.unicode-escape are "
-                  "modelled by hand; the Unicode name database of \\N{…} is a parameter (four names in the driver).")
+    level_text = ("Lean theorems about the transcribed code (quote / unquote / the pyparsing grammar as a 4-mode lexer / execute / "
+                  "signature binding / _StrType.parse escape by escape), for ALL strings and lines: lexer_loses_nothing, "
+                  "lexer_merge_splits_at_unquoted_ws, lexer_splits_at_unquoted_ws_partial (+counterexample `x foo\"bar baz\"`, F-C45c), "
+                  "unquote_quote (every string without both quote characters), unquote_quote_both, str_unescape_unquote_quote "
+                  "(every backslash-free string), arg_unchanged_partial and arg_unchanged_sig_partial (any number of arguments, every "
+                  "signature shape: fixed parameters of mixed types, *rest, none; guard per parameter type) with counterexamples "
+                  "`C:\\new` (F-C45b) and both quotes (F-C45a), execute_delivers_typed_tokens (for every line and signature, what reaches "
+                  "the command is position by position the typed conversion of the unquoted argument tokens), bindTys_spec, "
+                  "arity_mismatch_runs_nothing, executeSig_varargs. Model tied to the code through CommandManager.execute on six "
+                  "registered test commands, every line executed 1–3 times on one manager.")
+    level_note = ("PARTIAL: the full statement is false for the code (three recorded findings with exact classifiers, see known_selftest); "
+                  "proved under the guards named above. trusted: Lean kernel; differential tie (every execution's outcome, quote(), token "
+                  "list); the pyparsing grammar, the escape regex and codecs.unicode-escape are transcribed by hand into Model/C45.lean "
+                  "(validated by the tie, not verified against pyparsing/re/codecs); the Unicode name database of \\N{…} stays a parameter "
+                  "(four names in the driver); parameter defaults and the int/bool/Path/… conversions are not modelled.")
     technique = "Lean 4 proof (induction over strings / argument lists) + differential correspondence through CommandManager.execute"
     rule = ("(a) every string of length <=3 (thorough <=4) over {a, space, \", ', \\, n, x} as one argument of a str-typed and of a "
             "verbatim-typed command, (b) 1–3 random arguments over an alphabet with all whitespace kinds, both quotes, backslashes, "
             "escape-sequence fragments and non-ASCII plus values wrapped in / consisting of quote characters, (c) raw command lines over "
-            "the same alphabet (split rule). Every case runs on ONE fresh CommandManager and executes its line 1–3 times, interleaved "
+            "the same alphabet (split rule), (d) every signature shape (t.s/t.v *rest, t.one(str), t.two(str, verbatim), t.mix(verbatim, *str), "
+            "t.none()) with matching and non-matching argument counts. Every case runs on ONE fresh CommandManager and executes its line 1–3 times, interleaved "
             "with parse_partial calls and another line (plans x/p/o); the oracle and the (stateless) model are applied to every "
             "execution, and all executions must agree. distinct = distinct "
             "(kind, type, strings); non-trivial = at least one argument or a non-blank raw line.")
@@ -202,12 +238,18 @@ class Check(PropertyCheck):
         if tier == "thorough":
             for t in itertools.product(SMALL, repeat=4):
                 yield {"k": "raw", "ty": "v", "line": "t.v " + "".join(t)}
+        for key, (pos, rest) in SIGS.items():
+            for n in range(0, len(pos) + 3):
+                for w in ("a", "a b", "'\"", "C:\\new", ""):
+                    yield {"k": "args", "ty": key, "args": [w] * n}
         while True:
-            ty = "s" if rng.chance(0.5) else "v"
+            ty = rng.weighted([(5, "s"), (5, "v"), (2, "one"), (3, "two"), (3, "mix"), (1, "none")])
             r = rng.random()
             plan = rng.pick(PLANS)
             if r < 0.6:
-                yield {"k": "args", "ty": ty, "args": [self._rand(rng) for _ in range(rng.randint(1, 3))], "plan": plan}
+                pos, rest = SIGS[ty]
+                n = rng.randint(0, 3) if rng.chance(0.1) else len(pos) + (rng.randint(0 if pos else 1, 2) if rest else 0)
+                yield {"k": "args", "ty": ty, "args": [self._rand(rng) for _ in range(n)], "plan": plan}
             else:
                 pre = rng.pick(["t.%s ", " t.%s  ", '"t.%s" ', "'t.%s'\t", "t.%s", "t.%s\n"]) % ty
                 yield {"k": "raw", "ty": ty, "line": pre + self._rand(rng, 0, 12), "plan": plan}
@@ -220,7 +262,7 @@ class Check(PropertyCheck):
             line = "t.%s" % case["ty"] + "".join(" " + q for q in quoted)
         else:
             quoted, line = [], case["line"]
-        if case["ty"] == "s":
+        if True:
             for nm in re.findall(r"\\N\{([^}]+)\}", line):
                 if nm not in UNI and nm not in BOGUS: raise Skip()
         # the same line is executed several times on ONE manager (history re-run, repeated key binding), interleaved with
@@ -245,6 +287,7 @@ class Check(PropertyCheck):
         except exceptions.CommandError as e:
             m = str(e)
             if m.startswith("Invalid command"): return ["nocmd"]
+            if m.startswith("Command argument mismatch"): return ["arity"]
             if m.startswith("Unknown command"): return ["unknown"]
             return ["badarg"]
 
@@ -263,7 +306,10 @@ class Check(PropertyCheck):
         if case["k"] == "args":
             # "Any string, quoted with the console's quoting rule and placed in a command line, is passed to the executed command unchanged"
             want = case["args"]
-            if ex[0] == "call" and len(ex[2]) == len(want):
+            if tys_for(case["ty"], len(want)) is None:
+                # the command cannot take this many arguments: it must not be run at all
+                if ex != ["arity"]: fails.append("arity@%d: %d arguments for t.%s gave %r" % (run, len(want), case["ty"], ex))
+            elif ex[0] == "call" and len(ex[2]) == len(want):
                 for j, (w, g) in enumerate(zip(want, ex[2])):
                     if w != g: fails.append("arg-changed@%d#%d: argument %r arrived as %r (line %r)" % (run, j, w, g, obs["line"]))
             elif ex[0] == "badarg":
@@ -282,7 +328,7 @@ class Check(PropertyCheck):
             elif ex[0] == "nocmd":
                 if segs: fails.append("split-nocmd@%d: %r has pieces %r but no command was found" % (run, case["line"], segs))
             elif ex[0] == "unknown":
-                if segs and ref_unquote(segs[0]) in ("t.s", "t.v"):
+                if segs and ref_unquote(segs[0]) in NAMES:
                     fails.append("split@%d: %r command name not recognised" % (run, case["line"]))
         return fails
 
@@ -300,16 +346,18 @@ class Check(PropertyCheck):
         if kind == "arg-changed":
             if case["k"] != "args": return None
             want, x = case["args"], m.group(3)
-            pred = [self._delivered(ty, ref_unquote(ref_quote(w))) for w in want]
+            tys = tys_for(ty, len(want))
+            if tys is None: return None
+            pred = [self._delivered(t, ref_unquote(ref_quote(w))) for t, w in zip(tys, want)]
             if x == "badarg":
                 # F-C45b: a str argument with a backslash whose escape sequence the codec refuses
-                bad = [w for w, p in zip(want, pred) if p is None]
-                return "F-C45b" if ty == "s" and ex == ["badarg"] and bad and all("\\" in w for w in bad) else None
+                bad = [(t, w) for t, w, p in zip(tys, want, pred) if p is None]
+                return "F-C45b" if ex == ["badarg"] and bad and all(t == "s" and "\\" in w for t, w in bad) else None
             if x is None or not x.isdigit() or ex[0] != "call" or len(ex[2]) != len(want): return None
             j = int(x); w, g = want[j], ex[2][j]
             if j >= len(want) or g == w or g != pred[j]: return None
-            if ty == "v" and '"' in w and "'" in w and g == w.replace('"', "\\x22"): return "F-C45a"
-            if ty == "s" and "\\" in w: return "F-C45b"
+            if tys[j] == "v" and '"' in w and "'" in w and g == w.replace('"', "\\x22"): return "F-C45a"
+            if tys[j] == "s" and "\\" in w: return "F-C45b"
             return None
         # F-C45c: the line has a quote touching a non-blank neighbour, and what arrived is exactly the lexer's finer cut
         if case["k"] != "raw": return None
@@ -317,8 +365,10 @@ class Check(PropertyCheck):
         toks = [t for t in ref_tokens(case["line"]) if t.strip(WS) != ""]
         if not adj or not toks or len(toks) == len(segs): return None
         name = ref_unquote(toks[0])
-        if name not in ("t.s", "t.v"): return "F-C45c" if ex == ["unknown"] else None
-        pred = [self._delivered("s" if name == "t.s" else "v", ref_unquote(t)) for t in toks[1:]]
+        if name not in NAMES: return "F-C45c" if ex == ["unknown"] else None
+        tys = tys_for(NAMES[name], len(toks) - 1)
+        if tys is None: return "F-C45c" if ex == ["arity"] else None
+        pred = [self._delivered(t, ref_unquote(tok)) for t, tok in zip(tys, toks[1:])]
         if any(p is None for p in pred): return "F-C45c" if ex == ["badarg"] else None
         return "F-C45c" if ex == ["call", name, pred] else None
 
